@@ -185,3 +185,19 @@ def ret_sites_by(it, pred):
 
 def is_variant(t, adt_suffix, variant):
     return t[0] == 'agg' and t[1].endswith(adt_suffix) and t[2] == variant
+
+
+def inline_option_maps(facts, t):
+    """`Option::map(x, |e| body)` -> body[e := x] (options are transparent for provenance)."""
+    from ..terms import rebuild
+
+    def f(x):
+        if x[0] == 'call' and (cinfo(x[1])['def'] or '').endswith('option::Option::map') and len(x[2]) == 2 and x[2][1][0] == 'closure':
+            cb = facts.by_uid.get(x[2][1][1])
+            if cb is not None:
+                m = {('param', 2): x[2][0]}
+                for k, v in enumerate(x[2][1][2]):
+                    m[('upvar', k)] = v
+                return subst(interp(facts, cb).ret, m)
+        return x
+    return rebuild(t, f)
